@@ -106,7 +106,7 @@ pub fn minimise(
     let over = |st: &MinStats| t0.elapsed() > budget || st.candidates >= max_candidates;
 
     // try a batch; accept the first candidate (in order) that still shows the class and is smaller
-    let mut try_batch = |best: &mut Case, best_res: &mut RunResult, st: &mut MinStats, cands: Vec<Case>, oc: &mut OracleCache| -> bool {
+    let try_batch = |best: &mut Case, best_res: &mut RunResult, st: &mut MinStats, cands: Vec<Case>, oc: &mut OracleCache| -> bool {
         if cands.is_empty() {
             return false;
         }
